@@ -151,6 +151,74 @@ theorem C08_source_lost_point_src (M : BMat) (hrow : ∀ row ∈ M, row.length =
 
 end SourceTieD3
 
+/-! ### Capstones: the property composed with the source tie. The TRANSLATED SOURCE ITSELF (`QR.Gen.Code`, regenerated
+    from /repo's current Python AST on every run) satisfies the ISO statement, for all inputs; no `QR.Model` function
+    occurs in a conclusion. `level1Src` / `level2Src` (QR/Proofs/SourceTieT3.lean) are the translated fragments of
+    `_lost_point_level1` / `_lost_point_level2` (`lp1_*`, `l1_*`, `lp2_*` of `Gen.Code`) assembled by the loop
+    combinators written there (`foldl` over `range`, `lp2_iterLoop` for `next(it)`); `lp_cell M r c` is `modules[r][c]`. -/
+section Capstone
+open QR.Model QR.Gen QR.Gen.Code QR.SourceTieT QR.SourceTieD3
+
+/-- **capstone, `qrcode/util.py:lost_point`** (with all four callees `_lost_point_level1..4` TRANSLATED; rule 4 through the
+    exact-arithmetic reading of its float expression, see `C08_source_lostPointLevel4_src`): for every `n × n` matrix,
+    `n ≥ 1`, the translated `lost_point` returns the ISO 18004 penalty `Spec.penalty M = N1 + N2 + N3 + N4`.
+    From `C08_source_lost_point_src` and `C08_lost_point`. -/
+theorem C08_source_capstone_lost_point (M : BMat) (n : Nat) (hn : 1 ≤ n) (hlen : M.length = n)
+    (hrow : ∀ row ∈ M, row.length = n) :
+    l3f_lost_point List.length level1Src level2Src (fun M n => l3f_level3 (lp_cell M) n)
+      (fun M n => (lp4_result (lp4_dark_count M) n).toNat) M = Spec.penalty M := by
+  rw [← C08_source_lost_point_src M (fun row h => (hrow row h).trans hlen.symm)]
+  exact C08_lost_point M n hn hlen hrow
+
+/-- **capstone, `qrcode/util.py:_lost_point_level3`** (complete: both passes, `iter(range(n - 10))`, `next(it, None)`): on every
+    `n × n` matrix (every `n ≥ 0`) the translated function returns ISO rule 3, `Spec.N3 M n` = 40 per 1:1:3:1:1 window with
+    four light modules on one side, rows and columns. From `C08_source_lostPointLevel3_src` and `C08_rule3`. -/
+theorem C08_source_capstone_rule3 (M : BMat) (n : Nat) (hlen : M.length = n) (hrow : ∀ row ∈ M, row.length = n) :
+    l3f_level3 (lp_cell M) n = Spec.N3 M n := by
+  rw [← C08_source_lostPointLevel3_src M n hlen hrow]
+  exact C08_rule3 M n
+
+/-- **capstone, `qrcode/util.py:_lost_point_level1`** (translated fragments assembled as `level1Src`): on every `n × n` matrix the
+    source returns ISO rule 1, `Spec.N1 M n` = L − 2 per run of L ≥ 5 same-colour modules, rows and columns.
+    From `C08_source_lostPointLevel1_src` and `C08_rule1`. -/
+theorem C08_source_capstone_rule1 (M : BMat) (n : Nat) (hlen : M.length = n) (hrow : ∀ row ∈ M, row.length = n) :
+    level1Src M n = Spec.N1 M n := by
+  rw [← C08_source_lostPointLevel1_src M n hlen hrow]
+  exact C08_rule1 M n hlen hrow
+
+/-- **capstone, `qrcode/util.py:_lost_point_level2`** (translated fragments assembled as `level2Src`): on every `n × n` matrix the
+    source returns ISO rule 2, `Spec.N2 M` = 3 per monochrome 2x2 block. From `C08_source_lostPointLevel2_src` and `C08_rule2`. -/
+theorem C08_source_capstone_rule2 (M : BMat) (n : Nat) (hlen : M.length = n) (hrow : ∀ row ∈ M, row.length = n) :
+    level2Src M n = Spec.N2 M := by
+  rw [← C08_source_lostPointLevel2_src M n hlen hrow]
+  exact C08_rule2 M
+
+/-- **capstone, `qrcode/util.py:_lost_point_level4`**: on every `n × n` matrix, `n ≥ 1`, the EXACT (rational-arithmetic) value of the
+    translated expression `int(abs(float(dark_count) / modules_count ** 2 * 100 - 50) / 5) * 10` with the translated
+    `dark_count = sum(map(sum, modules))` is ISO rule 4, `Spec.N4 M n` = 10 per full 5 % step away from 50 % dark.
+    (Outside Lean, as in `C08_source_lostPointLevel4_src`: IEEE double evaluation gives the same integer.)
+    From `C08_source_lostPointLevel4_src` and `C08_rule4`. -/
+theorem C08_source_capstone_rule4 (M : BMat) (n : Nat) (hn : 0 < n) (hlen : M.length = n)
+    (hrow : ∀ row ∈ M, row.length = n) :
+    lp4_result (lp4_dark_count M) n = (Spec.N4 M n : Int) := by
+  rw [← C08_source_lostPointLevel4_src M n, C08_rule4 M n hn hlen hrow]
+
+/-- the capstones at a concrete 6x6 matrix (a long run, a 2x2 block, skewed dark ratio): the translated `lost_point`
+    is the ISO penalty of that matrix, which is 10 -/
+example : let M : BMat := [[true,true,true,true,true,true],[true,true,false,false,false,false],[false,true,false,true,false,true],
+                           [true,false,true,false,true,false],[false,false,false,false,false,true],[true,false,true,true,false,true]]
+    l3f_lost_point List.length level1Src level2Src (fun M n => l3f_level3 (lp_cell M) n)
+      (fun M n => (lp4_result (lp4_dark_count M) n).toNat) M = Spec.penalty M ∧ Spec.penalty M = 10 :=
+  ⟨C08_source_capstone_lost_point _ 6 (by decide) rfl (by decide), by decide⟩
+
+/-- the same evaluated directly by the kernel on the translated definitions -/
+example : l3f_lost_point List.length level1Src level2Src (fun M n => l3f_level3 (lp_cell M) n)
+      (fun M n => (lp4_result (lp4_dark_count M) n).toNat)
+      [[true,true,true,true,true,true],[true,true,false,false,false,false],[false,true,false,true,false,true],
+       [true,false,true,false,true,false],[false,false,false,false,false,true],[true,false,true,true,false,true]] = 10 := by decide
+
+end Capstone
+
 /-- the Python functions this property's model mirrors have, in /repo's current working tree, exactly the normalised
     ASTs the model was written and validated against (fingerprints regenerated by T1 on every run) -/
 theorem C08_source_fingerprints : QR.Gen.fp_C08 = QR.Pinned.fp_C08 := by decide
